@@ -1,5 +1,5 @@
 (* C19 — Tracing a parse changes nothing but the log (balance part). *)
-From PegV Require Import Utf8 State Terminals Syntax Fields Literals Model Inv TraceBal Extracted.
+From PegV Require Import Utf8 State Terminals Syntax Fields Literals Model Inv TraceBal Extracted TraceFrame.
 
 Theorem C19_facts :
   Extracted.file_codegen_src_rule_rs = true /\ Extracted.file_runtime_src_trace_rs = true /\
@@ -37,3 +37,22 @@ Print Assumptions C19_every_call.
 
 Check (eq_refl : depth 0 [TStart [65%N] 0; TInfo 0; TResOk 3] = Some 0).
 Check (eq_refl : depth 0 [TResOk 3] = None).
+
+(* The tracer cannot influence the parse: for every grammar (memoized and
+   left-recursive rules included), stateful hooks, every setting of the decision
+   points and every fuel, two runs that start from global states which differ
+   only in what the tracer has been told so far return the same result - value,
+   end state, error - and leave the cache, the user state and the ghost logs
+   equal.  A concrete tracer's state is a function of the callbacks it has
+   received, so `parse_with_trace` (IndentedTracer), a recording tracer and
+   `parse` (NoopTracer) return the same result. *)
+Theorem C19_tracer_independent :
+  forall (ustate : Type) (scfg : state_cfg) (tcfg : term_cfg) (fcfg : fields_cfg) (rcfg : rule_cfg)
+         (hk : hooks ustate) (g : grammar) fuel rule_name st (a b : glob ustate),
+    Rg ustate a b ->
+    fst (ev_rule (run ustate scfg tcfg fcfg rcfg hk g fuel) rule_name st a) =
+    fst (ev_rule (run ustate scfg tcfg fcfg rcfg hk g fuel) rule_name st b) /\
+    Rg ustate (snd (ev_rule (run ustate scfg tcfg fcfg rcfg hk g fuel) rule_name st a))
+              (snd (ev_rule (run ustate scfg tcfg fcfg rcfg hk g fuel) rule_name st b)).
+Proof. intros. apply parse_ignores_tracer. assumption. Qed.
+Print Assumptions C19_tracer_independent.
